@@ -32,11 +32,13 @@ impl Rng {
 }
 
 /// benign names valid in every format (no Han keyword characters, no leading `_`, no edge `-`)
-pub const NAMES_COMMON: [&str; 25] = [
+pub const NAMES_COMMON: [&str; 28] = [
     "a", "b", "c", "x1", "SELF", "go-to", "a_b", "9", "007", "w0rd", "Z", "ball", "left", "q",
     "名", "词项", "格点-4-5", "😀", "🔑k", "é", "ß9", "x_",
     // `_` and `-` next to each other without forming the README grammar's `punct "-" punct` copula pattern (K3)
     "a_-b", "p-_q", "k_9-z",
+    // numerics that are not ASCII digits (superscript, full-width, fraction): alphanumeric for both name alphabets
+    "x²", "词１", "a½b",
 ];
 
 pub fn name(r: &mut Rng) -> String {
@@ -95,6 +97,12 @@ pub fn atom(r: &mut Rng) -> Term {
 pub fn wild_term(r: &mut Rng, d: usize) -> Term {
     use Term::*;
     if d == 0 || r.chance(1, 4) {
+        if r.chance(1, 8) {
+            // names the parsers never produce: a blank at an edge (another name than the trimmed one)
+            let n = format!("{}{}", r.pick(&[" ", "\u{3000}", ""]), name(r));
+            let n = if r.chance(1, 2) { format!("{n} ") } else { n };
+            return match r.below(5) { 0 => Word(n), 1 => VariableIndependent(n), 2 => VariableDependent(n), 3 => VariableQuery(n), _ => Operator(n) };
+        }
         return if r.chance(1, 5) { Placeholder } else { atom(r) };
     }
     let kids = |r: &mut Rng| -> Vec<Term> {
